@@ -2,6 +2,7 @@ package main
 
 import (
 	"fmt"
+	"math/big"
 	"go/types"
 	"strings"
 	"time"
@@ -315,6 +316,35 @@ func init() {
 		"verif:verifSymbolic": func(ex *Exec, st *State, fn *ssa.Function, args []Value) Value {
 			return ex.ctx.True
 		},
+		"crypto/internal/alias.AnyOverlap": func(ex *Exec, st *State, fn *ssa.Function, args []Value) Value {
+			return ex.ctx.Bool(slicesOverlap(args[0].(SliceV), args[1].(SliceV), false))
+		},
+		"crypto/internal/alias.InexactOverlap": func(ex *Exec, st *State, fn *ssa.Function, args []Value) Value {
+			return ex.ctx.Bool(slicesOverlap(args[0].(SliceV), args[1].(SliceV), true))
+		},
+		"crypto/subtle.XORBytes": func(ex *Exec, st *State, fn *ssa.Function, args []Value) Value {
+			d := args[0].(SliceV)
+			x := ex.bytesOfSlice(st, args[1])
+			y := ex.bytesOfSlice(st, args[2])
+			n := len(x)
+			if len(y) < n {
+				n = len(y)
+			}
+			if n == 0 {
+				return ex.ctx.BVConst(64, 0)
+			}
+			if d.Len < n {
+				_, vals := ex.modelFor(st, nil)
+				ex.record(st, "panic", "subtle.XORBytes: dst too short", "", vals)
+				panic(pathEnd{"xorbytes"})
+			}
+			out := make([]Value, n)
+			for i := 0; i < n; i++ {
+				out[i] = ex.ctx.BvBin(OBvXor, x[i], y[i])
+			}
+			ex.sliceWrite(st, d, 0, out)
+			return ex.ctx.BVConst(64, uint64(n))
+		},
 		"math.Ceil":  fpUn(OFCeil),
 		"math.Floor": fpUn(OFFloor),
 		"math.Trunc": fpUn(OFTrunc),
@@ -417,6 +447,7 @@ func (ex *Exec) ufApp(st *State, name string, ret Sort, args ...*Term) *Term {
 			return t
 		}
 	}
+	var over map[*Term]*big.Int
 	for _, prev := range st.ufApps {
 		if prev.Name != name || len(prev.Args) != len(args) {
 			continue
@@ -436,7 +467,10 @@ func (ex *Exec) ufApp(st *State, name string, ret Sort, args ...*Term) *Term {
 		}
 		// cheap filter: arguments that differ under a pseudo-random assignment are not equal for all inputs
 		// (equalities that only hold under the path condition are then left to the solver's own UF reasoning)
-		if !maybeEqual(args, prev.Args) {
+		if over == nil {
+			over = pcOverrides(st.pc, st.binds)
+		}
+		if !maybeEqual(args, prev.Args, over) {
 			continue
 		}
 		res, _ := ex.sol.Check(c, append(append([]*Term(nil), st.pc...), c.Not(eq)), false)
@@ -449,6 +483,8 @@ func (ex *Exec) ufApp(st *State, name string, ret Sort, args ...*Term) *Term {
 	return t
 }
 
+var _ = big.NewInt
+
 
 func timeNs(v Value) *Term {
 	s, ok := v.(*StructV)
@@ -460,4 +496,15 @@ func timeNs(v Value) *Term {
 
 func timeFromNs(ex *Exec, ns *Term) Value {
 	return &StructV{F: []Value{ex.ctx.BVConst(64, 0), ns, PtrV{}}}
+}
+
+
+func slicesOverlap(a, b SliceV, inexact bool) bool {
+	if a.Len == 0 || b.Len == 0 || a.Obj != b.Obj || !pathEq(a.Path, b.Path) {
+		return false
+	}
+	if inexact && a.Off == b.Off {
+		return false
+	}
+	return a.Off < b.Off+b.Len && b.Off < a.Off+a.Len
 }
